@@ -257,6 +257,10 @@ def main():
         "engines": [
             {"name": "tlc", "path": "/usr/local/bin/tlc", "serves_properties": sorted(CLAIMED),
              "kind_free_text": "TLC 1.8 explicit-state model checker: exhaustive MC of bounded instances, case generation, batch trace validation"},
+            {"name": "apalache-mc", "path": "/usr/local/bin/apalache-mc", "serves_properties": ["C15", "C18"],
+             "kind_free_text": "Apalache 0.58 symbolic model checker, thorough tier only and never the deciding engine: inductive invariants (any number of "
+                               "steps) of the namespace insertion algorithm (spec/apalache/NsInd.tla; also refutes the pinned tree's variant) and of the PDK "
+                               "registry (spec/apalache/PdkInd.tla)"},
         ],
         "checks": checks,
         "notes": "Single entry point ./check; exit 0 held / 1 VIOLATION / 2 machinery failure. known_findings.json lists recorded defects and fix: commits.",
